@@ -94,14 +94,17 @@ def discharge(obls, timeout_s=60, jobs=None, cvc5_recheck=False):
     # cvc5 for unknowns, and optional recheck
     for o in todo:
         if o.result == 'unknown':
-            r = _cvc5(o.smt2(), timeout_s)
+            r = _cvc5(o.smt2(), min(timeout_s, 60))
             if r == 'proved':
                 o.result, o.solver = 'proved', 'cvc5'
     if cvc5_recheck:
-        def chk(o):
-            return o, _cvc5(o.smt2(), min(timeout_s, 30))
+        # z3's python API is not thread safe: serialise in this thread, only the cvc5 processes run in parallel
+        items = [(o, o.smt2()) for o in todo if o.result == 'proved' and o.solver != 'cvc5']
+
+        def chk(it):
+            return it[0], _cvc5(it[1], min(timeout_s, 30))
         from concurrent.futures import ThreadPoolExecutor
         with ThreadPoolExecutor(max_workers=jobs) as tp:
-            for o, r in tp.map(chk, [o for o in todo if o.result == 'proved' and o.solver != 'cvc5']):
+            for o, r in tp.map(chk, items):
                 o.cvc5 = r
     return obls
